@@ -885,6 +885,20 @@ func c17InverseOf(o c17Op, k *types.Kustomization, c *c17Case) (c17Op, bool) {
 		}
 		return c17Op{Kind: "remove secret", Pos: o.Pos, Namespace: o.Namespace}, true
 	case "add patch":
+		// guard of C17_add_remove_inverse_patch: no existing patch equals the new one once an explicit
+		// empty `options: {}` has been dropped by a write (`remove patch` deletes every equal patch)
+		for _, q := range k.Patches {
+			if len(q.Options) != 0 || q.Path != o.Path || q.Patch != o.Patch {
+				continue
+			}
+			var t [7]string
+			if q.Target != nil {
+				t = [7]string{q.Target.Group, q.Target.Version, q.Target.Kind, q.Target.Name, q.Target.Namespace, q.Target.AnnotationSelector, q.Target.LabelSelector}
+			}
+			if t == o.Target && !(q.Target != nil && *q.Target == (types.Selector{})) {
+				return c17Op{}, false
+			}
+		}
 		return c17Op{Kind: "remove patch", Path: o.Path, Patch: o.Patch, Target: o.Target}, true
 	}
 	return c17Op{}, false
